@@ -92,6 +92,13 @@ def generate(rnd, tier):
         rows.append({"g": [rnd.choice(v) for v in vals], "label": rnd.choice(labs), "score": scores[i]})
     frame = {"group_cols": cols, "rows": rows, "extra_col": rnd.random() < 0.3, "index": rnd.choice(["default", "default", "shuffled", "str"]),
              "pos_label": pos_label, "int_scores": style == "int" and rnd.random() < 0.5}
+    if frame["extra_col"] and rnd.random() < 0.5:
+        frame["extra_nan"] = True
+    if lab_kind in ("01", "str") and rnd.random() < 0.08:
+        # missing labels: "all other labels are treated as negative"
+        for i_, r_ in enumerate(rows):
+            if i_ % 4 == 2:
+                r_["label"] = None
     if rnd.random() < 0.15:
         frame["group_dtype"] = rnd.choice(["category", "string", "category_reordered"])  # string values, other pandas dtypes
     if not frame["int_scores"] and rnd.random() < 0.12:
@@ -188,6 +195,9 @@ def build_frame(fr):
         data["score"] = np.asarray(data["score"], dtype=fr["score_dtype"])
     if fr.get("extra_col"):
         data["extra"] = list(range(len(rows)))
+        if fr.get("extra_nan"):
+            # a column showbias is not asked about, with gaps in it
+            data["extra"] = [float("nan") if i % 3 == 1 else float(i) for i in range(len(rows))]
         order = ["extra"] + order
     df = pd.DataFrame({c: data[c] for c in order})
     gdt = fr.get("group_dtype")
